@@ -109,3 +109,122 @@ def matcher_obj(is_xml=False, is_html=True, namespaces=None, has_html_namespace=
              has_html_namespace=has_html_namespace, iframe_restrict=False)
     f.update(extra)
     return Obj(_cls='css_match.CSSMatch', _name='matcher', **f)
+
+
+# ---- abstract bs4 trees (navigation attributes as bs4 maintains them; the transcription is part of the trusted base) ----------
+class TextNode(str):
+    """A string node of the tree: text, comment, CDATA, processing instruction, declaration or doctype."""
+    _is_abstract_node = True
+    KINDS = {'text': ('bs4.NavigableString', 'bs4.element.NavigableString'),
+             'comment': ('bs4.NavigableString', 'bs4.PreformattedString', 'bs4.Comment'),
+             'cdata': ('bs4.NavigableString', 'bs4.PreformattedString', 'bs4.CData'),
+             'pi': ('bs4.NavigableString', 'bs4.PreformattedString', 'bs4.ProcessingInstruction'),
+             'declaration': ('bs4.NavigableString', 'bs4.PreformattedString', 'bs4.Declaration'),
+             'doctype': ('bs4.NavigableString', 'bs4.PreformattedString', 'bs4.Doctype')}
+
+    def __new__(cls, text, kind='text'):
+        o = super().__new__(cls, text)
+        o.kind = kind
+        o.__isa__ = cls.KINDS[kind] + tuple(k.replace('bs4.', 'bs4.element.') for k in cls.KINDS[kind])
+        o.parent = o.next_sibling = o.previous_sibling = o.next_element = o.previous_element = None
+        o.name = None
+        return o
+
+    def __repr__(self):
+        return f'<{self.kind} {str.__repr__(self)}>'
+
+    def __hash__(self):
+        return id(self)
+
+    def __eq__(self, other):           # bs4 strings compare by value; identity is what the matcher needs to tell nodes apart
+        return str.__eq__(self, other) if isinstance(other, str) else NotImplemented
+
+    def __ne__(self, other):
+        r = self.__eq__(other)
+        return r if r is NotImplemented else not r
+
+
+def build_tree(spec, is_xml=False, namespace=None):
+    """spec: ('name', {attrs}, [children]) | 'text' | ('#comment', 'text') ... Returns (document object, nodes in document
+    order, dict label -> node) with parent / contents / siblings / next_element / descendants linked as bs4 does.
+    An element may carry the pseudo-attribute '_label' (to find it again) and '_ns' (its namespace)."""
+    labels = {}
+    order = []
+
+    def make(s, parent):
+        if isinstance(s, str):
+            n = TextNode(s)
+        elif s[0].startswith('#'):
+            n = TextNode(s[1], s[0][1:])
+        else:
+            name, attrs, kids = s
+            attrs = dict(attrs)
+            label = attrs.pop('_label', None)
+            ns = attrs.pop('_ns', namespace)
+            n = el_obj(name, namespace=ns, attrs=attrs, is_xml=is_xml, label=f'<{label or name}>')
+            if label:
+                labels[label] = n
+            n.set('__eq_key__', None)
+        if isinstance(n, TextNode):
+            n.parent = parent
+        else:
+            n.set('parent', parent)
+        order.append(n)
+        if not isinstance(n, TextNode):
+            children = [make(k, n) for k in s[2]]
+            n.set('contents', children)
+            n.set('__iter__', children)
+            n.set('__len__', len(children))
+            n.set('children', children)
+        return n
+    doc = el_obj('[document]', is_xml=is_xml, label='BeautifulSoup')
+    doc.set('__isa__', ('bs4.Tag', 'bs4.BeautifulSoup', 'bs4.element.Tag'))
+    doc.set('is_xml', is_xml)
+    tops = [make(s, doc) for s in spec]
+    doc.set('contents', tops)
+    doc.set('__iter__', tops)
+    doc.set('__len__', len(tops))
+    doc.set('children', tops)
+    allnodes = [doc] + order
+
+    def setn(n, k, v):
+        if isinstance(n, TextNode):
+            setattr(n, k, v)
+        else:
+            n.set(k, v)
+
+    def kids(n):
+        return [] if isinstance(n, TextNode) else n.get('contents')
+    for n in allnodes:
+        cs = kids(n)
+        for i, c in enumerate(cs):
+            setn(c, 'previous_sibling', cs[i - 1] if i else None)
+            setn(c, 'next_sibling', cs[i + 1] if i + 1 < len(cs) else None)
+    setn(doc, 'previous_sibling', None)
+    setn(doc, 'next_sibling', None)
+    for i, n in enumerate(allnodes):
+        setn(n, 'previous_element', allnodes[i - 1] if i else None)
+        setn(n, 'next_element', allnodes[i + 1] if i + 1 < len(allnodes) else None)
+
+    def desc(n):
+        out = []
+        for c in kids(n):
+            out.append(c)
+            out.extend(desc(c))
+        return out
+    for n in allnodes:
+        if not isinstance(n, TextNode):
+            d = desc(n)
+            n.set('descendants', d)
+            def text_of(x):
+                return ''.join(t for t in desc(x) if isinstance(t, TextNode) and t.kind in ('text', 'cdata'))
+            n.set('__eq_key__', None)
+    # structural equality of tags (bs4 compares name, attributes and contents)
+    def key(n):
+        if isinstance(n, TextNode):
+            return ('s', str(n))
+        return ('t', n.get('name'), tuple(sorted((str(k), str(v)) for k, v in n.get('attrs').items())), tuple(key(c) for c in kids(n)))
+    for n in allnodes:
+        if not isinstance(n, TextNode):
+            n.set('__eq_key__', key(n))
+    return doc, order, labels
